@@ -3,7 +3,10 @@
   CommonMark documents (GM.Spec.CMFrag; stages 1–3: paragraphs of text lines with soft line breaks, separated / preceded /
   followed by any number of blank lines, every printable ASCII character in every spelling the specification
   licenses; stage 4: + ATX headings and thematic breaks; stage 5: + fenced code blocks; stage 6: + blocks directly
-  behind each other where the specification allows it) the composed model of `goldmark.Convert` (GM.Convert.convertCore: block phase with the link-reference
+  behind each other where the specification allows it; round 2 — stage 7: no final line feed; 8: code spans; 9: backslash
+  hard breaks; 10: inside a block quote; 11: `*` emphasis / strong; 12: indented code blocks; 13: THE UNION of 1–9, 11,
+  12 (also quoted); 14: nested block quotes of any depth; 16: inline links; 17: images; 18: URI autolinks; 19: raw
+  inline HTML tags; 20: `_` emphasis) the composed model of `goldmark.Convert` (GM.Convert.convertCore: block phase with the link-reference
   transformer, inline phase, renderer; tied to the real `Convert` byte for byte by component `convert`) produces
   exactly the HTML the specification prescribes, for ALL documents of the fragment.
   The renderer options are the ones component `cmspec` configures goldmark with: `html.WithUnsafe()`,
@@ -14,6 +17,23 @@ import GM.Proof.CMFragMain
 import GM.Proof.CMFrag4Main
 import GM.Proof.CMFrag5Main
 import GM.Proof.CMFrag6Main
+import GM.Proof.CMFrag7Main
+import GM.Proof.CMFrag12Main
+import GM.Proof.CMFragSpec12
+import GM.Proof.CMFrag8Main
+import GM.Proof.CMFrag9Main
+import GM.Proof.CMFragQMain
+import GM.Proof.CMFragQMainE
+import GM.Proof.CMFrag11Main
+import GM.Proof.CMFragNFrag
+import GM.Proof.CMFrag16Main
+import GM.Proof.CMFrag17Main
+import GM.Proof.CMFrag18Main
+import GM.Proof.CMFrag19Main
+import GM.Proof.CMFrag20Main
+import GM.Proof.CMFrag13Inl
+import GM.Proof.CMFragSpec13
+import GM.Proof.CMFragSpecN
 
 namespace GM.Props.C02Frag
 open GM GM.Spec.CM GM.Spec.CMFrag GM.Proof.CMFrag
@@ -272,10 +292,412 @@ theorem fragment6_conforms_spec (d : KDoc) (h : KFrag d) (hb : knoExtraBlanks d 
   rw [← fragment6_spell_is_spec d h hb hne, ← fragment6_expected_is_spec d h]
   exact fragment6_conforms d h uc
 
+/-! ### stage 7: a missing final line feed -/
+
+/-- **Conformance without the final line feed.** For EVERY stage-6 document `d` that ends with a block (`trail = 0`,
+    at least one block), written WITHOUT the line feed of its last line (`spellKE d` = `spellK d` minus its last
+    byte; the last line may be a paragraph line, an ATX heading, a thematic break or the closing fence of a fenced
+    code block, behind a blank line or directly behind the previous block): the model of goldmark's `Convert` returns
+    exactly the same prescribed HTML `expectedK d`. -/
+theorem fragment7_conforms (d : KDoc) (h : KFragE d) (uc : List (Nat × (Bool × Bool))) :
+    GM.Convert.convertCore uc { unsafe_ := true, xhtml := true, hardWraps := false } (spellKE d) = .ok (expectedK d) :=
+  GM.Proof.CMFrag.fragment7_conforms d h uc
+
+/-- the prescribed HTML is `expected` of the spec model with the choice `finalNewline := false` -/
+theorem fragment7_expected_is_spec (d : KDoc) (h : KFragE d) : expectedK d = expected (kembedE d) :=
+  GM.Proof.CMFrag.expectedKE_eq_expected d h
+
+/-- the source without final line feed is `spell` of the spec model with `finalNewline := false` -/
+theorem fragment7_spell_is_spec (d : KDoc) (h : KFragE d) (hb : knoExtraBlanks d = true) :
+    spellKE d = spell (kembedE d) :=
+  GM.Proof.CMFrag.spellKE_eq_spell d h hb
+
+/-- **Stage-7 conformance stated on the spec model itself** (its axis "missing final newline"). -/
+theorem fragment7_conforms_spec (d : KDoc) (h : KFragE d) (hb : knoExtraBlanks d = true)
+    (uc : List (Nat × (Bool × Bool))) :
+    GM.Convert.convertCore uc { unsafe_ := true, xhtml := true, hardWraps := false } (spell (kembedE d)) =
+      .ok (expected (kembedE d)) := by
+  rw [← fragment7_spell_is_spec d h hb, ← fragment7_expected_is_spec d h]
+  exact fragment7_conforms d h uc
+
+/-! ### stage 8: code spans inside paragraph lines -/
+
+/-- **Conformance with code spans.** For EVERY document of paragraphs (`RDoc`) whose lines are made of text atoms (any
+    licensed spelling of every character, as in stage 1–3) alternating with CODE SPANS — one backtick, a non-empty run of
+    ASCII letters and digits, one backtick — each line beginning and ending with text (`RFrag`, decidable), with any
+    number of blank lines between the paragraphs and at both ends: the model of goldmark's `Convert` returns exactly the
+    prescribed HTML (`<code>…</code>` in place of every span). The span may touch the text on both sides (`a`x`b`),
+    stand behind an escaped backtick or backslash, several spans per line, several lines per paragraph. -/
+theorem fragment8_conforms (d : RDoc) (h : RFrag d) (uc : List (Nat × (Bool × Bool))) :
+    GM.Convert.convertCore uc { unsafe_ := true, xhtml := true, hardWraps := false } (spellR d) = .ok (expectedR d) :=
+  GM.Proof.CMFrag.fragment8_conforms d h uc
+
+/-- the prescribed HTML is `expected` of the spec model on `rembed d` (text / `Inline.code` / soft breaks) -/
+theorem fragment8_expected_is_spec (d : RDoc) (h : RFrag d) : expectedR d = expected (rembed d) :=
+  GM.Proof.CMFrag.expectedR_eq_expected d h
+
+/-- the source is `spell` of the spec model, byte for byte, when there are no extra blank lines -/
+theorem fragment8_spell_is_spec (d : RDoc) (h : RFrag d) (hb : rnoExtraBlanks d = true) (hne : d.items ≠ []) :
+    spellR d = spell (rembed d) :=
+  GM.Proof.CMFrag.spellR_eq_spell d h hb hne
+
+/-- **Stage-8 conformance stated on the spec model itself.** -/
+theorem fragment8_conforms_spec (d : RDoc) (h : RFrag d) (hb : rnoExtraBlanks d = true) (hne : d.items ≠ [])
+    (uc : List (Nat × (Bool × Bool))) :
+    GM.Convert.convertCore uc { unsafe_ := true, xhtml := true, hardWraps := false } (spell (rembed d)) =
+      .ok (expected (rembed d)) := by
+  rw [← fragment8_spell_is_spec d h hb hne, ← fragment8_expected_is_spec d h]
+  exact fragment8_conforms d h uc
+
+/-- the same documents without the line feed of the last line (`spellR d` minus its last byte when `trail = 0`) -/
+theorem fragment8_conforms_no_final_newline (d : RDoc) (h : RFrag d) (hne : d.items ≠ [])
+    (uc : List (Nat × (Bool × Bool))) :
+    GM.Convert.convertCore uc { unsafe_ := true, xhtml := true, hardWraps := false }
+      (GM.Proof.CMFrag.rawDoc6E (GM.Proof.CMFrag.paraItems true (GM.Proof.CMFrag.itemsOfR d))) = .ok (expectedR d) :=
+  GM.Proof.CMFrag.fragment8_conforms_nofinal d h hne uc
+
+/-! ### stage 9: hard line breaks written with a backslash -/
+
+/-- **Conformance with hard line breaks.** For EVERY document of paragraphs (`BDoc`) whose lines are stage-1–3 text lines,
+    every line except the last of its paragraph optionally followed by a BACKSLASH (`BFrag`, decidable): the model of
+    goldmark's `Convert` returns exactly the prescribed HTML — `<br />` and a line feed behind a hard line. -/
+theorem fragment9_conforms (d : BDoc) (h : BFrag d) (uc : List (Nat × (Bool × Bool))) :
+    GM.Convert.convertCore uc { unsafe_ := true, xhtml := true, hardWraps := false } (spellBD d) = .ok (expectedBD d) :=
+  GM.Proof.CMFrag.fragment9_conforms d h uc
+
+/-- the prescribed HTML is `expected` of the spec model on `bembed d` (text / `Inline.hardBreak true 0` / soft breaks) -/
+theorem fragment9_expected_is_spec (d : BDoc) (h : BFrag d) : expectedBD d = expected (bembed d) :=
+  GM.Proof.CMFrag.expectedBD_eq_expected d h
+
+theorem fragment9_spell_is_spec (d : BDoc) (h : BFrag d) (hb : bnoExtraBlanks d = true) (hne : d.items ≠ []) :
+    spellBD d = spell (bembed d) :=
+  GM.Proof.CMFrag.spellBD_eq_spell d h hb hne
+
+/-- **Stage-9 conformance stated on the spec model itself.** -/
+theorem fragment9_conforms_spec (d : BDoc) (h : BFrag d) (hb : bnoExtraBlanks d = true) (hne : d.items ≠ [])
+    (uc : List (Nat × (Bool × Bool))) :
+    GM.Convert.convertCore uc { unsafe_ := true, xhtml := true, hardWraps := false } (spell (bembed d)) =
+      .ok (expected (bembed d)) := by
+  rw [← fragment9_spell_is_spec d h hb hne, ← fragment9_expected_is_spec d h]
+  exact fragment9_conforms d h uc
+
+theorem fragment9_conforms_no_final_newline (d : BDoc) (h : BFrag d) (hne : d.items ≠ [])
+    (uc : List (Nat × (Bool × Bool))) :
+    GM.Convert.convertCore uc { unsafe_ := true, xhtml := true, hardWraps := false }
+      (GM.Proof.CMFrag.rawDoc6E (GM.Proof.CMFrag.paraItems true (GM.Proof.CMFrag.itemsOfB d))) = .ok (expectedBD d) :=
+  GM.Proof.CMFrag.fragment9_conforms_nofinal d h hne uc
+
+/-! ### stage 10: a stage-6 document inside one block quote -/
+
+/-- what stage 10 needs from packages e2e and tnopanic: on a source without `[` the block phase with the
+    link-reference-definition transformer is the plain block phase. (`GM.Props.ConvertE2E.block_phase_bracket_free` gives
+    `blockPhase guard src = run src ∨ ∃ e, blockPhase guard src = .error e`; `GM.Props.ConvertNP.block_phase_total` excludes
+    the error.) -/
+abbrev BlockPhaseBracketFree : Prop := GM.Proof.CMFrag.BPFree
+
+/-- **Conformance inside a block quote — composing quotesim2's simulation with stage 6.** For EVERY stage-6 document `d`
+    with at least one block whose source `spellK d` contains none of `-`, `*`, `+`, a digit, `[`, tab, CR (`QFrag`,
+    decidable): the source with `"> "` in front of EVERY line (`spellQ d`; blank lines too) is converted by the model of
+    goldmark's `Convert` to `<blockquote>` LF, the stage-6 HTML of `d`, `</blockquote>` LF. Proof: the block phase on the
+    prefixed source simulates the one on `spellK d` (`GM.Blocks.run_sim`, package quotesim2: same nodes below one
+    Blockquote, every segment moved behind the markers of its line); the block phase with the paragraph transformer is
+    that run (`BlockPhaseBracketFree`); the inline phase on the moved segments of every paragraph / heading gives the
+    same nodes; the code lines have the same values. -/
+theorem fragment10_conforms (H : BlockPhaseBracketFree) (d : KDoc) (h : QFrag d) (uc : List (Nat × (Bool × Bool))) :
+    GM.Convert.convertCore uc { unsafe_ := true, xhtml := true, hardWraps := false } (spellQ d) = .ok (expectedQ d) :=
+  GM.Proof.CMFrag.fragmentQ_conforms H d h uc
+
+/-- the quoted document without the line feed of its last line (`spellQE d` = `"> "` in front of every line of `spellKE d`) -/
+theorem fragment10_conforms_no_final_newline (H : BlockPhaseBracketFree) (d : KDoc) (h : QFragE d)
+    (uc : List (Nat × (Bool × Bool))) :
+    GM.Convert.convertCore uc { unsafe_ := true, xhtml := true, hardWraps := false } (spellQE d) = .ok (expectedQ d) :=
+  GM.Proof.CMFrag.fragmentQE_conforms H d h uc
+
+/-- the prescribed HTML is `expected` of the spec model on `qembed d` = one `Block.quote` around `kembed d` -/
+theorem fragment10_expected_is_spec (d : KDoc) (h : QFrag d) : expectedQ d = expected (qembed d) :=
+  GM.Proof.CMFrag.expectedQ_eq_expected d (GM.Proof.CMFrag.qfrag_kfrag d h)
+
+/-! ### stage 11: emphasis and strong emphasis (next to code spans) inside paragraph lines -/
+
+/-- **Conformance with emphasis.** For EVERY document of paragraphs (`EDoc`) whose lines are made of text atoms (any
+    licensed spelling of every character) alternating with code spans, `*x*` and `**x**` (x a non-empty run of ASCII
+    letters and digits), each line beginning and ending with text (`EFrag`, decidable): the model of goldmark's `Convert`
+    returns exactly the prescribed HTML (`<em>x</em>`, `<strong>x</strong>`). NO condition on the characters next to
+    the `*` runs is needed (the content is alphanumeric, so the opening run is left-flanking and the closing run
+    right-flanking whatever stands outside — letters, spaces, punctuation in any spelling, an escaped `\*`): the tie
+    enumerates all 95 characters × 7 spellings on both sides. -/
+theorem fragment11_conforms (d : EDoc) (h : EFrag d) (uc : List (Nat × (Bool × Bool))) :
+    GM.Convert.convertCore uc { unsafe_ := true, xhtml := true, hardWraps := false } (spellE d) = .ok (expectedE d) :=
+  GM.Proof.CMFrag.fragment11_conforms d h uc
+
+/-- the prescribed HTML is `expected` of the spec model on `eembed d` (`Inline.emph` / `Inline.strong` with the `*` choice) -/
+theorem fragment11_expected_is_spec (d : EDoc) (h : EFrag d) : expectedE d = expected (eembed d) :=
+  GM.Proof.CMFrag.expectedE_eq_expected d h
+
+theorem fragment11_spell_is_spec (d : EDoc) (h : EFrag d) (hb : enoExtraBlanks d = true) (hne : d.items ≠ []) :
+    spellE d = spell (eembed d) :=
+  GM.Proof.CMFrag.spellE_eq_spell d h hb hne
+
+/-- **Stage-11 conformance stated on the spec model itself.** -/
+theorem fragment11_conforms_spec (d : EDoc) (h : EFrag d) (hb : enoExtraBlanks d = true) (hne : d.items ≠ [])
+    (uc : List (Nat × (Bool × Bool))) :
+    GM.Convert.convertCore uc { unsafe_ := true, xhtml := true, hardWraps := false } (spell (eembed d)) =
+      .ok (expected (eembed d)) := by
+  rw [← fragment11_spell_is_spec d h hb hne, ← fragment11_expected_is_spec d h]
+  exact fragment11_conforms d h uc
+
+/-! ### stage 14: nested block quotes, any depth -/
+
+/-- **Conformance inside `k + 1` nested block quotes, for every `k`.** For every stage-10 document `d` (`QFrag`) and
+    every `k`: the source with `"> "` put in front of every line `k + 1` times (`> > > text`; `spellNQ k d`) is converted
+    by the model of goldmark's `Convert` to `k + 1` nested `<blockquote>` elements around the stage-6 HTML of `d`. Proof:
+    quotesim2's simulation `run_sim` ITERATED (`nest_run`: the class of the simulation is kept by the prefix), with an
+    invariant saying which node of the `j`-th run represents which block (`Rep`: its lines lie somewhere in the `j` times
+    prefixed source, in order; kept by `NodeRel`), the tree of a store of that shape (`QShapeN`, `treeOf_qshapeN`), and the
+    inline phase on lines given by positions. `k = 0` is `fragment10_conforms`. -/
+theorem fragment14_conforms (H : BlockPhaseBracketFree) (k : Nat) (d : KDoc) (h : QFrag d)
+    (uc : List (Nat × (Bool × Bool))) :
+    GM.Convert.convertCore uc { unsafe_ := true, xhtml := true, hardWraps := false } (spellNQ k d) =
+      .ok (expectedNQ k d) :=
+  GM.Proof.CMFrag.fragmentNQ_conforms H k d h uc
+
+/-- the prescribed HTML is `expected` of the spec model on `k + 1` nested `Block.quote`s around `kembed d` -/
+theorem fragment14_expected_is_spec (k : Nat) (d : KDoc) (h : QFrag d) : expectedNQ k d = expected (nqembed k d) :=
+  GM.Proof.CMFrag.expectedNQ_eq_expected k d (GM.Proof.CMFrag.qfrag_kfrag d h)
+
+/-! ### stage 12: indented code blocks -/
+
+/-- **Conformance on the stage-12 fragment.** For EVERY document `d` of paragraphs, ATX headings, thematic breaks,
+    fenced code blocks (as in stage 6) and INDENTED CODE BLOCKS (one or more lines of four spaces followed by printable
+    ASCII text that does not start with a space), where blocks follow each other with or without blank lines as
+    CommonMark allows — an indented code block needs a blank line behind a paragraph (4.4: it cannot interrupt a
+    paragraph), any block may directly follow an indented code block, and no indented code block follows an indented
+    code block (with only blank lines between them they would be ONE block): the model of goldmark's `Convert` on
+    `spellIc d` returns exactly the prescribed HTML `expectedI d`. In particular the blank lines behind an indented code
+    block — which goldmark first appends to the open block and removes again when it closes the block — never reach the
+    output. -/
+theorem fragment12_conforms (d : IDoc) (h : IFrag d) (uc : List (Nat × (Bool × Bool))) :
+    GM.Convert.convertCore uc { unsafe_ := true, xhtml := true, hardWraps := false } (spellIc d) = .ok (expectedI d) :=
+  GM.Proof.CMFrag.fragment12_conforms d h uc
+
+/-- … and the same documents written WITHOUT the line feed of their last line (`trail = 0`, at least one block; the last
+    block may be an indented code block whose last line ends the source): the same HTML -/
+theorem fragment12_conforms_no_final_newline (d : IDoc) (h : IFragE d) (uc : List (Nat × (Bool × Bool))) :
+    GM.Convert.convertCore uc { unsafe_ := true, xhtml := true, hardWraps := false } (spellIcE d) = .ok (expectedI d) :=
+  GM.Proof.CMFrag.fragment12_conforms_no_final_newline d h uc
+
+/-- the stage-12 prescribed HTML is `expected` of the spec model on the embedded document (an indented code block is the
+    spec model's `Block.icode`) -/
+theorem fragment12_expected_is_spec (d : IDoc) (h : IFrag d) : expectedI d = expected (iembed d) :=
+  GM.Proof.CMFrag.expectedI_eq_expected d h
+
+/-- … so on every stage-12 source the model of `Convert` returns the HTML of the spec model for the embedded document -/
+theorem fragment12_conforms_spec_html (d : IDoc) (h : IFrag d) (uc : List (Nat × (Bool × Bool))) :
+    GM.Convert.convertCore uc { unsafe_ := true, xhtml := true, hardWraps := false } (spellIc d) =
+      .ok (expected (iembed d)) := by
+  rw [← fragment12_expected_is_spec d h]
+  exact fragment12_conforms d h uc
+
+/-- a non-empty stage-12 document without extra blank lines — nothing in front / behind, at most one blank line between
+    two blocks and exactly one in front of and behind every indented code block (the spec model has no `abut` choice for
+    `Block.icode`) — is spelled byte for byte like the embedded document of the spec model -/
+theorem fragment12_spell_is_spec (d : IDoc) (h : IFrag d) (hb : inoExtraBlanks d = true) (hne : d.items ≠ []) :
+    spellIc d = spell (iembed d) :=
+  GM.Proof.CMFrag.spellIc_eq_spell d h hb hne
+
+/-- … so for these documents the statement is entirely in terms of the spec model -/
+theorem fragment12_conforms_spec (d : IDoc) (h : IFrag d) (hb : inoExtraBlanks d = true) (hne : d.items ≠ [])
+    (uc : List (Nat × (Bool × Bool))) :
+    GM.Convert.convertCore uc { unsafe_ := true, xhtml := true, hardWraps := false } (spell (iembed d)) =
+      .ok (expected (iembed d)) := by
+  rw [← fragment12_spell_is_spec d h hb hne, ← fragment12_expected_is_spec d h]
+  exact fragment12_conforms d h uc
+
+/-- stage 6 is the part of stage 12 without indented code blocks -/
+theorem fragment12_extends_6 (d : KDoc) : spellIc d.toI = spellK d ∧ expectedI d.toI = expectedK d :=
+  ⟨GM.Proof.CMFrag.spellI_toI d, GM.Proof.CMFrag.expectedI_toI d⟩
+
+/-! ### stage 13: the union — every block kind of stage 6 / 7 / 12 with rich lines -/
+
+/-- **Conformance of the union fragment.** For EVERY document `d : UDocS` — paragraphs, ATX headings, thematic breaks,
+    fenced code blocks and INDENTED CODE BLOCKS (stage 12: lines of printable ASCII behind four spaces; not directly behind
+    a paragraph, and never behind another indented code block, however many blank lines lie between them), abutting where
+    CommonMark allows (stage 6), where every paragraph line and every heading text is a RICH line (text in any licensed
+    spelling alternating with code spans, `*x*`, `**x**`) and a paragraph line that is not the last may end with a
+    backslash HARD BREAK (`UFrag`, decidable): the model of goldmark's `Convert` returns exactly the prescribed HTML.
+    This one statement contains stages 1–6, 8, 9, 11 and 12. -/
+theorem fragment13_conforms (d : UDocS) (h : UFrag d) (uc : List (Nat × (Bool × Bool))) :
+    GM.Convert.convertCore uc { unsafe_ := true, xhtml := true, hardWraps := false } (spellU d) = .ok (expectedU d) :=
+  GM.Proof.CMFrag.fragment13_conforms_of GM.Proof.CMFrag.u13InlG_holds d h uc
+
+/-- … written without the final line feed (contains stage 7); here the LAST block is not an indented code block
+    (`ulastNotIc`; that case is `fragment12_conforms_no_final_newline`) -/
+theorem fragment13_conforms_no_final_newline (d : UDocS) (h : UFragE d) (uc : List (Nat × (Bool × Bool))) :
+    GM.Convert.convertCore uc { unsafe_ := true, xhtml := true, hardWraps := false } (spellUE d) = .ok (expectedU d) :=
+  GM.Proof.CMFrag.fragment13E_conforms_of GM.Proof.CMFrag.u13InlG_holds d h uc
+
+/-- the prescribed HTML / the source are `expected` / `spell` of the spec model on `uembed d` -/
+theorem fragment13_expected_is_spec (d : UDocS) (h : UFrag d) : expectedU d = expected (uembed d) :=
+  GM.Proof.CMFrag.expectedU_eq_expected d h
+
+theorem fragment13_spell_is_spec (d : UDocS) (h : UFrag d) (hb : unoExtraBlanks d = true) (hne : d.items ≠ []) :
+    spellU d = spell (uembed d) :=
+  GM.Proof.CMFrag.spellU_eq_spell d h hb hne
+
+/-- **The union stated on the spec model itself.** -/
+theorem fragment13_conforms_spec (d : UDocS) (h : UFrag d) (hb : unoExtraBlanks d = true) (hne : d.items ≠ [])
+    (uc : List (Nat × (Bool × Bool))) :
+    GM.Convert.convertCore uc { unsafe_ := true, xhtml := true, hardWraps := false } (spell (uembed d)) =
+      .ok (expected (uembed d)) := by
+  rw [← fragment13_spell_is_spec d h hb hne, ← fragment13_expected_is_spec d h]
+  exact fragment13_conforms d h uc
+
+/-- **The union inside `k + 1` nested block quotes** (contains stages 10 and 14 except for the final-line-feed variant):
+    for every union document with at least one block whose source has none of `-`, `*`, `+`, a digit, `[`, tab, CR
+    (`UQFrag`; so no emphasis atoms — `*` is a possible list marker and outside quotesim2's class) and which has NO
+    indented code block, and every `k`. -/
+theorem fragment13_conforms_quoted (H : BlockPhaseBracketFree) (k : Nat) (d : UDocS) (h : UQFrag d)
+    (uc : List (Nat × (Bool × Bool))) :
+    GM.Convert.convertCore uc { unsafe_ := true, xhtml := true, hardWraps := false } (quoteLinesN (k + 1) (spellU d)) =
+      .ok (wrapQ (k + 1) (expectedU d)) :=
+  GM.Proof.CMFrag.fragment13NQ_conforms_of H GM.Proof.CMFrag.u13InlG_holds k d h uc
+
+/-- for `k = 0` this is `spellUQ d ↦ expectedUQ d`, and `expectedUQ d` is `expected` of the spec model -/
+theorem fragment13_quoted_expected_is_spec (d : UDocS) (h : UQFrag d) : expectedUQ d = expected (uqembed d) :=
+  GM.Proof.CMFrag.expectedUQ_eq_expected d (GM.Proof.CMFrag.uqfrag_ufrag h)
+
+/-! ### stage 16: inline links -/
+
+/-- **Conformance with inline links.** For EVERY document of paragraphs (`LDoc`) whose lines are text atoms (any licensed
+    spelling of every character) alternating with INLINE LINKS `[t](d)` — `t` a non-empty run of ASCII letters and digits,
+    `d` a non-empty run of letters, digits and `/`, no title —, each line beginning and ending with text (`LFrag`,
+    decidable): the model of goldmark's `Convert` returns exactly the prescribed HTML (`<a href="d">t</a>`). No condition
+    on the characters next to the brackets is needed (an escaped `\[`, `\]`, `\!` included). -/
+theorem fragment16_conforms (d : LDoc) (h : LFrag d) (uc : List (Nat × (Bool × Bool))) :
+    GM.Convert.convertCore uc { unsafe_ := true, xhtml := true, hardWraps := false } (spellL d) = .ok (expectedL d) :=
+  GM.Proof.CMFrag.fragment16_conforms d h uc
+
+theorem fragment16_expected_is_spec (d : LDoc) (h : LFrag d) : expectedL d = expected (lembed d) :=
+  GM.Proof.CMFrag.expectedL_eq_expected d h
+
+theorem fragment16_spell_is_spec (d : LDoc) (h : LFrag d) (hb : lnoExtraBlanks d = true) (hne : d.items ≠ []) :
+    spellL d = spell (lembed d) :=
+  GM.Proof.CMFrag.spellL_eq_spell d h hb hne
+
+/-- **Stage-16 conformance stated on the spec model itself.** -/
+theorem fragment16_conforms_spec (d : LDoc) (h : LFrag d) (hb : lnoExtraBlanks d = true) (hne : d.items ≠ [])
+    (uc : List (Nat × (Bool × Bool))) :
+    GM.Convert.convertCore uc { unsafe_ := true, xhtml := true, hardWraps := false } (spell (lembed d)) =
+      .ok (expected (lembed d)) := by
+  rw [← fragment16_spell_is_spec d h hb hne, ← fragment16_expected_is_spec d h]
+  exact fragment16_conforms d h uc
+
+/-! ### stage 17: images -/
+
+/-- **Conformance with images.** As stage 16 with IMAGES `![t](d)` in place of the links (`ImgDoc`, `ImgFrag`): the model of
+    goldmark's `Convert` returns `<img src="d" alt="t" />` for every image. -/
+theorem fragment17_conforms (d : ImgDoc) (h : ImgFrag d) (uc : List (Nat × (Bool × Bool))) :
+    GM.Convert.convertCore uc { unsafe_ := true, xhtml := true, hardWraps := false } (spellImg d) = .ok (expectedImg d) :=
+  GM.Proof.CMFrag.fragment17_conforms d h uc
+
+theorem fragment17_expected_is_spec (d : ImgDoc) (h : ImgFrag d) : expectedImg d = expected (imgembed d) :=
+  GM.Proof.CMFrag.expectedImg_eq_expected d h
+
+theorem fragment17_spell_is_spec (d : ImgDoc) (h : ImgFrag d) (hb : imgnoExtraBlanks d = true) (hne : d.items ≠ []) :
+    spellImg d = spell (imgembed d) :=
+  GM.Proof.CMFrag.spellImg_eq_spell d h hb hne
+
+theorem fragment17_conforms_spec (d : ImgDoc) (h : ImgFrag d) (hb : imgnoExtraBlanks d = true) (hne : d.items ≠ [])
+    (uc : List (Nat × (Bool × Bool))) :
+    GM.Convert.convertCore uc { unsafe_ := true, xhtml := true, hardWraps := false } (spell (imgembed d)) =
+      .ok (expected (imgembed d)) := by
+  rw [← fragment17_spell_is_spec d h hb hne, ← fragment17_expected_is_spec d h]
+  exact fragment17_conforms d h uc
+
+/-! ### stage 18: URI autolinks -/
+
+/-- **Conformance with URI autolinks.** For EVERY document of paragraphs (`ADoc`) whose lines are text atoms alternating
+    with AUTOLINKS `<s:r>` — `s` a scheme of 2 to 32 ASCII letters, `r` a non-empty run of letters, digits, `/` and `.` —,
+    each line beginning and ending with text (`AFrag`): the model of goldmark's `Convert` returns
+    `<a href="s:r">s:r</a>` for every autolink. (A scheme of 33 letters is OUTSIDE the fragment: there goldmark deviates
+    from CommonMark 6.5 — see notes/status_cmfrag.md, findings.) -/
+theorem fragment18_conforms (d : ADoc) (h : AFrag d) (uc : List (Nat × (Bool × Bool))) :
+    GM.Convert.convertCore uc { unsafe_ := true, xhtml := true, hardWraps := false } (spellAD d) = .ok (expectedAD d) :=
+  GM.Proof.CMFrag.fragment18_conforms d h uc
+
+theorem fragment18_expected_is_spec (d : ADoc) (h : AFrag d) : expectedAD d = expected (aembed d) :=
+  GM.Proof.CMFrag.expectedAD_eq_expected d h
+
+theorem fragment18_spell_is_spec (d : ADoc) (h : AFrag d) (hb : anoExtraBlanks d = true) (hne : d.items ≠ []) :
+    spellAD d = spell (aembed d) :=
+  GM.Proof.CMFrag.spellAD_eq_spell d h hb hne
+
+theorem fragment18_conforms_spec (d : ADoc) (h : AFrag d) (hb : anoExtraBlanks d = true) (hne : d.items ≠ [])
+    (uc : List (Nat × (Bool × Bool))) :
+    GM.Convert.convertCore uc { unsafe_ := true, xhtml := true, hardWraps := false } (spell (aembed d)) =
+      .ok (expected (aembed d)) := by
+  rw [← fragment18_spell_is_spec d h hb hne, ← fragment18_expected_is_spec d h]
+  exact fragment18_conforms d h uc
+
+/-! ### stage 19: raw inline HTML tags -/
+
+/-- **Conformance with raw inline HTML.** For EVERY document of paragraphs (`H19Doc`) whose lines are text atoms
+    alternating with OPEN TAGS `<n>` and CLOSING TAGS `</n>` (`n` = an ASCII letter followed by letters and digits, no
+    attributes), each line beginning and ending with text (`H19Frag`): with `html.WithUnsafe()` the model of goldmark's
+    `Convert` passes every tag through verbatim. (The autolink parser, which shares the trigger `<`, declines; names of
+    block-level elements — `div`, `pre`, `script` — are harmless in inline position.) -/
+theorem fragment19_conforms (d : H19Doc) (h : H19Frag d) (uc : List (Nat × (Bool × Bool))) :
+    GM.Convert.convertCore uc { unsafe_ := true, xhtml := true, hardWraps := false } (spellH19 d) = .ok (expectedH19 d) :=
+  GM.Proof.CMFrag.fragment19_conforms d h uc
+
+theorem fragment19_expected_is_spec (d : H19Doc) (h : H19Frag d) : expectedH19 d = expected (h19embed d) :=
+  GM.Proof.CMFrag.expectedH19_eq_expected d h
+
+theorem fragment19_spell_is_spec (d : H19Doc) (h : H19Frag d) (hb : h19noExtraBlanks d = true) (hne : d.items ≠ []) :
+    spellH19 d = spell (h19embed d) :=
+  GM.Proof.CMFrag.spellH19_eq_spell d h hb hne
+
+theorem fragment19_conforms_spec (d : H19Doc) (h : H19Frag d) (hb : h19noExtraBlanks d = true) (hne : d.items ≠ [])
+    (uc : List (Nat × (Bool × Bool))) :
+    GM.Convert.convertCore uc { unsafe_ := true, xhtml := true, hardWraps := false } (spell (h19embed d)) =
+      .ok (expected (h19embed d)) := by
+  rw [← fragment19_spell_is_spec d h hb hne, ← fragment19_expected_is_spec d h]
+  exact fragment19_conforms d h uc
+
+/-! ### stage 20: underscore emphasis -/
+
+/-- **Conformance with `_` emphasis.** For EVERY document of paragraphs (`UnDoc`) whose lines are text atoms alternating
+    with `_x_` and `__x__` (x a non-empty run of ASCII letters and digits) such that the SOURCE byte directly in front of
+    an opening run and the one directly behind a closing run is not a letter or digit (6.2, rules 2 / 4 / 6 / 8: with
+    alphanumeric neighbours `a_b_c` is literal text — the tie checks that too, on non-members) (`UnFrag`): the model of
+    goldmark's `Convert` returns `<em>x</em>` / `<strong>x</strong>`. -/
+theorem fragment20_conforms (d : UnDoc) (h : UnFrag d) (uc : List (Nat × (Bool × Bool))) :
+    GM.Convert.convertCore uc { unsafe_ := true, xhtml := true, hardWraps := false } (spellUn d) = .ok (expectedUn d) :=
+  GM.Proof.CMFrag.fragment20_conforms d h uc
+
+theorem fragment20_expected_is_spec (d : UnDoc) (h : UnFrag d) : expectedUn d = expected (unembed d) :=
+  GM.Proof.CMFrag.expectedUn_eq_expected d h
+
+theorem fragment20_spell_is_spec (d : UnDoc) (h : UnFrag d) (hb : unnoExtraBlanks d = true) (hne : d.items ≠ []) :
+    spellUn d = spell (unembed d) :=
+  GM.Proof.CMFrag.spellUn_eq_spell d h hb hne
+
+theorem fragment20_conforms_spec (d : UnDoc) (h : UnFrag d) (hb : unnoExtraBlanks d = true) (hne : d.items ≠ [])
+    (uc : List (Nat × (Bool × Bool))) :
+    GM.Convert.convertCore uc { unsafe_ := true, xhtml := true, hardWraps := false } (spell (unembed d)) =
+      .ok (expected (unembed d)) := by
+  rw [← fragment20_spell_is_spec d h hb hne, ← fragment20_expected_is_spec d h]
+  exact fragment20_conforms d h uc
+
 /-! ### what is NOT proved yet (statements only): the next stages of the fragment -/
 
-/-- remainder (open): ATX closing sequences, spaced thematic breaks, leading indentation 1–3, info strings with other characters,
-    longer closing fences, unclosed fences; indented code blocks, block quotes, tight bullet lists. The full statement stays the searched one: for every well-formed document of
+/-- remainder (open): ATX closing sequences, spaced thematic breaks, leading indentation 1–3, info strings with other
+    characters, longer closing fences, unclosed fences; setext headings (the orphaned paragraph node changes the shape of the
+    node store the block-phase proofs write out), blank lines inside indented code blocks, lists, HTML blocks, link reference definitions;
+    inline: links with titles / angle destinations / reference links, images with titles, e-mail autolinks, raw HTML with attributes / comments, the inline atoms of stages 16–20 together with those of the union, nested emphasis, code spans with spaces or longer backtick
+    runs, hard breaks by trailing spaces; block quotes with lazy continuation lines or without the space behind `>`,
+    quoted documents containing `-`, `*`, `+`, digits or `[` (outside the classes of quotesim2 / e2e). The full statement
+    stays the searched one: for every well-formed document of
     GM.Spec.CommonMark written without tabs (with tabs goldmark deviates: KNOWN_FINDINGS, notes/status_C02.md),
     `convertCore (spell d) = expected d` up to the line feed in front of `</blockquote>`, `</li>` (component
     `cmspec` compares after that normalisation; on the fragment no normalisation is needed). NOT a theorem. -/
@@ -352,6 +774,13 @@ example : GM.Convert.convertCore [] { unsafe_ := true, xhtml := true, hardWraps 
 -- test: a paragraph directly followed by `---` or by a text line is NOT in the fragment
 example : ¬ KFrag { items := [ { block := .base (.para [[⟨97, .lit⟩]]) }, { sep := 0, block := .base (.thematic 1 0) } ] } := by
   decide
+-- test: stage 7 on a document ending in a closing fence without line feed, directly behind a paragraph
+def sample7 : KDoc :=
+  { items := [ { sep := 1, block := .base (.para [[⟨97, .lit⟩]]) }, { sep := 0, block := .fcode false 0 [103, 111] [[120]] } ] }
+example : KFragE sample7 := by decide
+example : spellKE sample7 = strBytes "\na\n```go\nx\n```" := by decide +kernel
+example : GM.Convert.convertCore [] { unsafe_ := true, xhtml := true, hardWraps := false } (spellKE sample7) =
+    .ok (expectedK sample7) := fragment7_conforms sample7 (by decide) []
 -- tests (kernel-evaluated) of why the two exclusions are needed: in the model, as in CommonMark, `---` directly under a
 -- paragraph makes a setext heading (4.3) and a text line directly under a paragraph continues it (4.8)
 def okIs (r : Except GM.Convert.Err Bytes) (b : Bytes) : Bool := match r with | .ok x => x == b | .error _ => false
@@ -359,6 +788,127 @@ example : okIs (GM.Convert.convertCore [] { unsafe_ := true, xhtml := true, hard
     (strBytes "<h2>a</h2>\n") = true := by decide +kernel
 example : okIs (GM.Convert.convertCore [] { unsafe_ := true, xhtml := true, hardWraps := false } (strBytes "a\nb\n"))
     (strBytes "<p>a\nb</p>\n") = true := by decide +kernel
+-- test: stage 8 — two code spans touching the text, a second line
+def sample8 : RDoc :=
+  { items := [ { lines := [[.txt [⟨97, .lit⟩], .code [120], .txt [⟨98, .lit⟩, ⟨32, .lit⟩], .code [121, 49], .txt [⟨99, .lit⟩]],
+                           [.txt [⟨100, .lit⟩]]] } ] }
+example : RFrag sample8 := by decide
+example : spellR sample8 = strBytes "a`x`b `y1`c\nd\n" := by decide +kernel
+example : expectedR sample8 = strBytes "<p>a<code>x</code>b <code>y1</code>c\nd</p>\n" := by decide +kernel
+example : GM.Convert.convertCore [] { unsafe_ := true, xhtml := true, hardWraps := false } (spellR sample8) =
+    .ok (expectedR sample8) := fragment8_conforms sample8 (by decide) []
+-- test: stage 9 — a hard and a soft break
+def sample9 : BDoc :=
+  { items := [ { lines := [⟨[⟨97, .lit⟩], true⟩, ⟨[⟨98, .lit⟩], false⟩, ⟨[⟨99, .lit⟩], false⟩] } ] }
+example : BFrag sample9 := by decide
+example : spellBD sample9 = strBytes "a\\\nb\nc\n" := by decide +kernel
+example : expectedBD sample9 = strBytes "<p>a<br />\nb\nc</p>\n" := by decide +kernel
+example : GM.Convert.convertCore [] { unsafe_ := true, xhtml := true, hardWraps := false } (spellBD sample9) =
+    .ok (expectedBD sample9) := fragment9_conforms sample9 (by decide) []
+-- test: stage 10 — heading, paragraph, fence, `___` inside a quote
+def sample10 : KDoc :=
+  { items := [ { sep := 0, block := .base (.heading 1 [⟨84, .lit⟩]) },
+               { sep := 0, block := .base (.para [[⟨97, .lit⟩], [⟨98, .lit⟩]]) },
+               { sep := 0, block := .fcode false 0 [] [[120]] },
+               { sep := 1, block := .base (.thematic 2 0) } ] }
+example : QFrag sample10 := by decide
+example : spellQ sample10 = strBytes "> # T\n> a\n> b\n> ```\n> x\n> ```\n> \n> ___\n" := by decide +kernel
+example : expectedQ sample10 =
+    strBytes "<blockquote>\n<h1>T</h1>\n<p>a\nb</p>\n<pre><code>x\n</code></pre>\n<hr />\n</blockquote>\n" := by decide +kernel
+example : okIs (GM.Convert.convertCore [] { unsafe_ := true, xhtml := true, hardWraps := false } (spellQ sample10))
+    (expectedQ sample10) = true := by decide +kernel
+-- test: stage 11 — emphasis touching text, strong, a code span
+def sample11 : EDoc :=
+  { items := [ { lines := [[.txt [⟨97, .lit⟩], .em [98], .txt [⟨99, .lit⟩, ⟨32, .lit⟩], .strong [100], .txt [⟨46, .lit⟩], .code [120],
+                            .txt [⟨101, .lit⟩]]] } ] }
+example : EFrag sample11 := by decide
+example : spellE sample11 = strBytes "a*b*c **d**.`x`e\n" := by decide +kernel
+example : expectedE sample11 = strBytes "<p>a<em>b</em>c <strong>d</strong>.<code>x</code>e</p>\n" := by decide +kernel
+example : GM.Convert.convertCore [] { unsafe_ := true, xhtml := true, hardWraps := false } (spellE sample11) =
+    .ok (expectedE sample11) := fragment11_conforms sample11 (by decide) []
+-- test: stage 14 — three nested quotes
+example : spellNQ 2 sample10 =
+    strBytes "> > > # T\n> > > a\n> > > b\n> > > ```\n> > > x\n> > > ```\n> > > \n> > > ___\n" := by decide +kernel
+example : okIs (GM.Convert.convertCore [] { unsafe_ := true, xhtml := true, hardWraps := false } (spellNQ 2 sample10))
+    (expectedNQ 2 sample10) = true := by decide +kernel
+-- test: stage 13 — heading with a code span, paragraph with emphasis and a hard break, fence directly behind it,
+-- indented code block directly behind the closed fence
+def sample13 : UDocS :=
+  { items := [ { sep := 0, block := .heading 2 [.txt [⟨97, .lit⟩, ⟨32, .lit⟩], .code [120], .txt [⟨32, .lit⟩, ⟨98, .lit⟩]] },
+               { sep := 0, block := .para [⟨[.txt [⟨99, .lit⟩], .em [100], .txt [⟨101, .lit⟩]], true⟩, ⟨[.txt [⟨102, .lit⟩]], false⟩] },
+               { sep := 0, block := .fcode false 0 [] [[121]] },
+               { sep := 0, block := .icode [[60, 122]] } ] }
+example : UFrag sample13 := by decide
+example : spellU sample13 = strBytes "## a `x` b\nc*d*e\\\nf\n```\ny\n```\n    <z\n" := by decide +kernel
+example : expectedU sample13 =
+    strBytes "<h2>a <code>x</code> b</h2>\n<p>c<em>d</em>e<br />\nf</p>\n<pre><code>y\n</code></pre>\n<pre><code>&lt;z\n</code></pre>\n" := by decide +kernel
+example : GM.Convert.convertCore [] { unsafe_ := true, xhtml := true, hardWraps := false } (spellU sample13) =
+    .ok (expectedU sample13) := fragment13_conforms sample13 (by decide) []
+-- test: stage 16 — two links, one touching the text
+def sample16 : LDoc :=
+  { items := [ { lines := [[.txt [⟨97, .lit⟩, ⟨32, .lit⟩], .link [98] [47, 99], .txt [⟨100, .lit⟩], .link [101, 102] [103], .txt [⟨46, .lit⟩, ⟨104, .lit⟩]]] } ] }
+example : LFrag sample16 := by decide
+example : spellL sample16 = strBytes "a [b](/c)d[ef](g).h\n" := by decide +kernel
+example : expectedL sample16 = strBytes "<p>a <a href=\"/c\">b</a>d<a href=\"g\">ef</a>.h</p>\n" := by decide +kernel
+example : GM.Convert.convertCore [] { unsafe_ := true, xhtml := true, hardWraps := false } (spellL sample16) =
+    .ok (expectedL sample16) := fragment16_conforms sample16 (by decide) []
+-- test: stage 12 — paragraph, blank line, indented code (two lines), blank lines, heading, indented code directly
+-- behind it, fence directly behind that, indented code directly behind the closed fence, `***` directly behind it
+def sample12 : IDoc :=
+  { items := [ { sep := 0, block := .h (.base (.para [[⟨97, .lit⟩]])) },
+               { sep := 1, block := .icode [[120, 60, 121], [45, 32, 122]] },
+               { sep := 2, block := .h (.base (.heading 2 [⟨104, .lit⟩])) },
+               { sep := 0, block := .icode [[35, 32, 113]] },
+               { sep := 0, block := .h (.fcode false 0 [] []) },
+               { sep := 0, block := .icode [[107]] },
+               { sep := 0, block := .h (.base (.thematic 0 0)) } ], trail := 2 }
+example : IFrag sample12 := by decide
+example : spellIc sample12 = strBytes "a\n\n    x<y\n    - z\n\n\n## h\n    # q\n```\n```\n    k\n***\n\n\n" := by
+  decide +kernel
+example : expectedI sample12 = strBytes ("<p>a</p>\n<pre><code>x&lt;y\n- z\n</code></pre>\n<h2>h</h2>\n" ++
+    "<pre><code># q\n</code></pre>\n<pre><code></code></pre>\n<pre><code>k\n</code></pre>\n<hr />\n") := by
+  decide +kernel
+example : GM.Convert.convertCore [] { unsafe_ := true, xhtml := true, hardWraps := false } (spellIc sample12) =
+    .ok (expectedI sample12) := fragment12_conforms sample12 (by decide) []
+-- test: stage 12 without final line feed, ending in an indented code block
+def sample12E : IDoc :=
+  { items := [ { sep := 0, block := .h (.base (.heading 1 [⟨84, .lit⟩])) }, { sep := 0, block := .icode [[120], [121, 32]] } ] }
+example : IFragE sample12E := by decide
+example : spellIcE sample12E = strBytes "# T\n    x\n    y " := by decide +kernel
+example : expectedI sample12E = strBytes "<h1>T</h1>\n<pre><code>x\ny \n</code></pre>\n" := by decide +kernel
+example : GM.Convert.convertCore [] { unsafe_ := true, xhtml := true, hardWraps := false } (spellIcE sample12E) =
+    .ok (expectedI sample12E) := fragment12_conforms_no_final_newline sample12E (by decide) []
+-- test: an indented line directly under a paragraph, and two indented code blocks behind each other, are NOT in the
+-- fragment
+example : ¬ IFrag { items := [ { block := .h (.base (.para [[⟨97, .lit⟩]])) }, { sep := 0, block := .icode [[120]] } ] } := by
+  decide
+example : ¬ IFrag { items := [ { block := .icode [[120]] }, { sep := 2, block := .icode [[121]] } ] } := by decide
+-- test: stage 17 / 18 — an image, an autolink
+def sample17 : ImgDoc := { items := [ { lines := [[.txt [⟨97, .lit⟩], .img [98] [47, 99], .txt [⟨100, .lit⟩]]] } ] }
+example : ImgFrag sample17 := by decide
+example : spellImg sample17 = strBytes "a![b](/c)d\n" := by decide +kernel
+example : expectedImg sample17 = strBytes "<p>a<img src=\"/c\" alt=\"b\" />d</p>\n" := by decide +kernel
+example : GM.Convert.convertCore [] { unsafe_ := true, xhtml := true, hardWraps := false } (spellImg sample17) =
+    .ok (expectedImg sample17) := fragment17_conforms sample17 (by decide) []
+def sample18 : ADoc := { items := [ { lines := [[.txt [⟨97, .lit⟩, ⟨32, .lit⟩], .auto [104, 116, 116, 112] [47, 47, 120, 46, 121], .txt [⟨46, .lit⟩, ⟨98, .lit⟩]]] } ] }
+example : AFrag sample18 := by decide
+example : spellAD sample18 = strBytes "a <http://x.y>.b\n" := by decide +kernel
+example : expectedAD sample18 = strBytes "<p>a <a href=\"http://x.y\">http://x.y</a>.b</p>\n" := by decide +kernel
+example : GM.Convert.convertCore [] { unsafe_ := true, xhtml := true, hardWraps := false } (spellAD sample18) =
+    .ok (expectedAD sample18) := fragment18_conforms sample18 (by decide) []
+-- test: stage 19 / 20
+def sample19 : H19Doc := { items := [ { lines := [[.txt [⟨97, .lit⟩, ⟨32, .lit⟩], .open [98], .txt [⟨99, .lit⟩], .close [98], .txt [⟨32, .lit⟩, ⟨100, .lit⟩]]] } ] }
+example : H19Frag sample19 := by decide
+example : spellH19 sample19 = strBytes "a <b>c</b> d\n" := by decide +kernel
+example : GM.Convert.convertCore [] { unsafe_ := true, xhtml := true, hardWraps := false } (spellH19 sample19) =
+    .ok (expectedH19 sample19) := fragment19_conforms sample19 (by decide) []
+def sample20 : UnDoc := { items := [ { lines := [[.txt [⟨97, .lit⟩, ⟨32, .lit⟩], .em [98], .txt [⟨32, .lit⟩, ⟨99, .lit⟩, ⟨40, .lit⟩], .strong [100], .txt [⟨41, .lit⟩, ⟨101, .lit⟩]]] } ] }
+example : UnFrag sample20 := by decide
+example : spellUn sample20 = strBytes "a _b_ c(__d__)e\n" := by decide +kernel
+example : expectedUn sample20 = strBytes "<p>a <em>b</em> c(<strong>d</strong>)e</p>\n" := by decide +kernel
+example : GM.Convert.convertCore [] { unsafe_ := true, xhtml := true, hardWraps := false } (spellUn sample20) =
+    .ok (expectedUn sample20) := fragment20_conforms sample20 (by decide) []
+example : ¬ UnFrag { items := [ { lines := [[.txt [⟨97, .lit⟩], .em [98], .txt [⟨99, .lit⟩]]] } ] } := by decide
 -- test: a good line
 example : GoodLine [97, 32, 98] := fragment_lines_quiet [⟨97, .lit⟩, ⟨32, .lit⟩, ⟨98, .lit⟩] (by decide)
 
